@@ -342,8 +342,9 @@ def run_property(pid, tier="quick", seed=0, update_ledger=False, verbose=False):
         },
         "assumptions": assumptions, "wall_s": round(wall, 2), "violations": sum(1 for l in lines if l.startswith("VIOLATION")),
     }
-    os.makedirs(os.path.join(ROOT, "evidence"), exist_ok=True)
-    with open(os.path.join(ROOT, "evidence", f"{pid}.json"), "w") as f:
+    evdir = os.environ.get("VERIF_EVIDENCE_DIR") or os.path.join(ROOT, "evidence")
+    os.makedirs(evdir, exist_ok=True)
+    with open(os.path.join(evdir, f"{pid}.json"), "w") as f:
         json.dump(ev, f, indent=1)
     print(f"[{pid}] tier={tier} functions={len(funcs)} obligations={n_obl} discharged={n_dis} "
           f"undecided={len(undecided)} violations={ev['violations']} wall={wall:.1f}s")
